@@ -1,0 +1,89 @@
+// +build verif
+
+// Verification hooks (build tag `verif` only): a synchronous stepping interface around the real
+// ConsensusState. One VerifHandleMsg / VerifHandleTimeout call is exactly one iteration of
+// receiveRoutine (write-ahead log first, then the handler), executed on the caller's goroutine;
+// timeouts are recorded instead of fired, and the validator's own messages stay in the internal
+// queue until the caller pops them with VerifNextInternal.
+
+package pbft
+
+import (
+	"time"
+
+	sm "github.com/dappledger/AnnChain/gemmill/state"
+)
+
+// VerifTimeout is a timeout the state machine asked for.
+type VerifTimeout struct {
+	Duration time.Duration
+	Height   int64
+	Round    int64
+	Step     RoundStepType
+}
+
+// VerifTicker records scheduled timeouts and never fires.
+type VerifTicker struct {
+	Scheduled []VerifTimeout
+	ch        chan timeoutInfo
+}
+
+func (t *VerifTicker) Start() (bool, error)     { return true, nil }
+func (t *VerifTicker) Stop() bool               { return true }
+func (t *VerifTicker) Chan() <-chan timeoutInfo { return t.ch }
+func (t *VerifTicker) ScheduleTimeout(ti timeoutInfo) {
+	t.Scheduled = append(t.Scheduled, VerifTimeout{ti.Duration, ti.Height, ti.Round, ti.Step})
+}
+
+// VerifUseTicker installs a recording ticker.
+func (cs *ConsensusState) VerifUseTicker() *VerifTicker {
+	t := &VerifTicker{ch: make(chan timeoutInfo)}
+	cs.timeoutTicker = t
+	return t
+}
+
+// VerifHandleMsg = one receiveRoutine iteration for a peer (peerKey != "") or internal message.
+func (cs *ConsensusState) VerifHandleMsg(msg ConsensusMessage, peerKey string) {
+	mi := msgInfo{msg, peerKey}
+	cs.wal.Save(mi)
+	cs.handleMsg(mi, cs.RoundState)
+}
+
+// VerifHandleTimeout = one receiveRoutine iteration for a fired timeout.
+func (cs *ConsensusState) VerifHandleTimeout(height, round int64, step RoundStepType) {
+	ti := timeoutInfo{0, height, round, step}
+	cs.wal.Save(ti)
+	cs.handleTimeout(ti, cs.RoundState)
+}
+
+// VerifNextInternal pops the next message the validator queued for itself, if any.
+func (cs *ConsensusState) VerifNextInternal() (ConsensusMessage, bool) {
+	select {
+	case mi := <-cs.internalMsgQueue:
+		return mi.Msg, true
+	default:
+		return nil, false
+	}
+}
+
+// VerifInternalQueueLen is the number of queued internal messages.
+func (cs *ConsensusState) VerifInternalQueueLen() int { return len(cs.internalMsgQueue) }
+
+// VerifState is the state (until height-1) the consensus state works on.
+func (cs *ConsensusState) VerifState() *sm.State { return cs.state }
+
+// VerifScheduleRound0 is what OnStart does after replaying the WAL.
+func (cs *ConsensusState) VerifScheduleRound0() { cs.scheduleRound0(cs.getRoundState()) }
+
+// VerifCatchupReplay replays the WAL for the current height (what OnStart does first).
+func (cs *ConsensusState) VerifCatchupReplay() error { return cs.catchupReplay(cs.Height) }
+
+// VerifStopWAL closes the write-ahead log (a crash keeps whatever was written).
+func (cs *ConsensusState) VerifStopWAL() {
+	if cs.wal != nil {
+		cs.wal.Stop()
+	}
+}
+
+// VerifSetSkipTimeoutCommit sets the "skip timeout commit" parameter.
+func (cs *ConsensusState) VerifSetSkipTimeoutCommit(b bool) { cs.timeoutParams.SkipTimeoutCommit = b }
